@@ -12,7 +12,8 @@ import traceback
 HERE = os.path.dirname(os.path.abspath(__file__))
 VERIF = os.path.dirname(HERE)
 sys.path.insert(0, VERIF)
-sys.path.insert(0, '/repo')
+REPO = os.environ.get('PANE_VERIF_REPO', '/repo')   # (background sweeps may point this at a snapshot of /repo)
+sys.path.insert(0, REPO)
 os.environ.setdefault('PYTHONHASHSEED', '0')
 
 
